@@ -9,9 +9,10 @@ Executable model of package fai (fai/fai.go, fai/file.go) — core Lean only.
   * `writeTo`, `readFrom` — the tab separated text form (`fmt` %d = `showNat`, strconv.ParseInt = `readInt`,
                    encoding/csv restricted to unquoted fields).
 
-The model describes the code WITH the repairs fixes/C19-1 (blank lines are counted into the offset),
+The model describes the code as it is now on /repo main, i.e. WITH the repairs fixes/C19-1 (blank lines are counted into the offset),
 fixes/C19-2 (Read at the end of the segment returns io.EOF before any position arithmetic) and
-fixes/C19-3 (no 64 KiB limit on the length of a line).
+fixes/C19-3 (no 64 KiB limit on the length of a line), and with C11's repairs d9ad7e9 (`position` returns Start
+when BasesPerLine is 0) and 38c3f30 (`ReadFrom` validates every record: `RawRecord.isValid`).
 
 Conventions: bytes are `UInt8`, Go `int`/`int64` values are `Nat` (the code never produces negative ones;
 `readFrom`, which can, yields `Int`s).  Where Go would panic or misbehave the model returns an explicit
@@ -159,10 +160,11 @@ def newIndex (fasta : Bytes) : Except IdxErr Index :=
 
 /-! ### Record.position, endOfLineOffset, Position -/
 
-/-- `r.Start + int64(p/r.BasesPerLine*r.BytesPerLine + p%r.BasesPerLine)`; Go panics when
-`BasesPerLine = 0`, so callers in this model test that first. -/
+/-- `Record.position`: `r.Start` when `BasesPerLine == 0` (only an empty sequence has no bases per line),
+else `r.Start + int64(p/r.BasesPerLine*r.BytesPerLine + p%r.BasesPerLine)`. -/
 def Record.position (r : Record) (p : Nat) : Nat :=
-  r.start + (p / r.basesPerLine * r.bytesPerLine + p % r.basesPerLine)
+  if r.basesPerLine = 0 then r.start
+  else r.start + (p / r.basesPerLine * r.bytesPerLine + p % r.basesPerLine)
 
 def Record.endOfLineOffset (r : Record) (p : Nat) : Nat :=
   if p / r.basesPerLine = r.length / r.basesPerLine then r.length - p
@@ -170,14 +172,12 @@ def Record.endOfLineOffset (r : Record) (p : Nat) : Nat :=
 
 inductive Fault where
   | outOfRange   -- panic("fai: index out of range") / errors.New("fai: index out of range")
-  | divByZero    -- runtime panic: integer divide by zero
   | noSequence   -- errors.New("fai: no sequence")
   deriving DecidableEq, Repr
 
-/-- exported `Record.Position` -/
+/-- exported `Record.Position` (no division by zero any more: `position` tests `BasesPerLine`) -/
 def Record.Position (r : Record) (p : Int) : Except Fault Nat :=
   if p < 0 ∨ (r.length : Int) ≤ p then .error .outOfRange
-  else if r.basesPerLine = 0 then .error .divByZero
   else .ok (r.position p.toNat)
 
 /-! ### File.Seq, File.SeqRange, Seq.Read -/
@@ -209,7 +209,7 @@ def Seq.reset (s : Seq) : Seq := { s with cur := s.start }
 inductive RdErr where
   | nil
   | eof
-  | panicDiv    -- integer divide by zero in `position`
+  | panicDiv    -- integer divide by zero in `endOfLineOffset` (a non-empty segment of a record without BasesPerLine)
   | badLayout   -- `min(eol, end-cur, len(b)) ≤ 0`: Go would slice with a negative bound (panic) or spin on empty reads
   deriving DecidableEq, Repr
 
@@ -308,7 +308,17 @@ inductive RfErr where
   | quotedField   -- a field starting with `"`: csv quoted-field syntax, NOT modelled
   | nonUnique     -- ErrNonUnique
   | number        -- strconv error (syntax or range)
+  | invalid       -- ErrInvalidRecord
   deriving DecidableEq, Repr
+
+def maxInt64 : Int := 2 ^ 63 - 1
+
+/-- `Record.isValid`: what `ReadFrom` requires of a record (Go's truncating integer division). -/
+def RawRecord.isValid (r : RawRecord) : Bool :=
+  if r.length < 0 ∨ r.start < 0 ∨ r.basesPerLine < 0 ∨ r.bytesPerLine < r.basesPerLine then false
+  else if r.basesPerLine = 0 then decide (r.length = 0)
+  else decide (Int.tdiv r.length r.basesPerLine ≤
+    Int.tdiv (maxInt64 - r.start - r.basesPerLine) r.bytesPerLine)
 
 def digitVal (b : UInt8) : Option Nat :=
   if 48 ≤ b.toNat ∧ b.toNat ≤ 57 then some (b.toNat - 48) else none
@@ -379,7 +389,8 @@ def parseRecord (seen : List RawRecord) (fs : List Bytes) : Except RfErr RawReco
   | [name, len, start, bases, bytes] =>
     if seen.any (·.name == name) then .error .nonUnique
     else match readInt len, readInt start, readInt bases, readInt bytes with
-      | some l, some s, some b, some y => .ok ⟨name, l, s, b, y⟩
+      | some l, some s, some b, some y =>
+        if (RawRecord.mk name l s b y).isValid then .ok ⟨name, l, s, b, y⟩ else .error .invalid
       | _, _, _, _ => .error .number
   | _ => .error .fieldCount
 
